@@ -180,7 +180,7 @@ func PrimaryPackage(gocmd, path string, files []string) (*PkgInfo, error) {
 		return nil, err
 	}
 
-	if err := setImports(gocmd, info); err != nil {
+	if err := setImports(gocmd, path, info); err != nil {
 		return nil, err
 	}
 
@@ -267,7 +267,7 @@ func Package(path string, files []string) (*PkgInfo, error) {
 	return pi, nil
 }
 
-func getNamedImports(gocmd string, pkgs map[string]string) ([]*Import, error) {
+func getNamedImports(gocmd, dir string, pkgs map[string]string) ([]*Import, error) {
 	var imports []*Import
 	// iterate in sorted order, the unique names given to the imports (and so
 	// the generated mainfile) must not depend on map iteration order.
@@ -279,7 +279,7 @@ func getNamedImports(gocmd string, pkgs map[string]string) ([]*Import, error) {
 	for _, pkg := range paths {
 		alias := pkgs[pkg]
 		debug.Printf("getting import package %q, alias %q", pkg, alias)
-		imp, err := getImport(gocmd, pkg, alias)
+		imp, err := getImportFrom(dir, gocmd, pkg, alias)
 		if err != nil {
 			return nil, err
 		}
@@ -290,7 +290,14 @@ func getNamedImports(gocmd string, pkgs map[string]string) ([]*Import, error) {
 
 // getImport returns the metadata about a package that has been mage:import'ed.
 func getImport(gocmd, importpath, alias string) (*Import, error) {
-	out, err := internal.OutputDebug(gocmd, "list", "-f", "{{.Dir}}||{{.Name}}", importpath)
+	return getImportFrom("", gocmd, importpath, alias)
+}
+
+// getImportFrom is getImport with the import path resolved as seen from
+// magefileDir (the current directory if empty), which decides the module (or
+// GOPATH/vendor directory) the package is looked up in.
+func getImportFrom(magefileDir, gocmd, importpath, alias string) (*Import, error) {
+	out, err := internal.OutputDebugIn(magefileDir, gocmd, "list", "-f", "{{.Dir}}||{{.Name}}", importpath)
 	if err != nil {
 		return nil, err
 	}
@@ -304,7 +311,7 @@ func getImport(gocmd, importpath, alias string) (*Import, error) {
 	// we use go list to get the list of files, since go/parser doesn't differentiate between
 	// go files with build tags etc, and go list does. This prevents weird problems if you
 	// have more than one package in a folder because of build tags.
-	out, err = internal.OutputDebug(gocmd, "list", "-f", `{{join .GoFiles "||"}}`, importpath)
+	out, err = internal.OutputDebugIn(magefileDir, gocmd, "list", "-f", `{{join .GoFiles "||"}}`, importpath)
 	if err != nil {
 		return nil, err
 	}
@@ -400,7 +407,7 @@ func setNamespaces(pi *PkgInfo) {
 	}
 }
 
-func setImports(gocmd string, pi *PkgInfo) error {
+func setImports(gocmd, dir string, pi *PkgInfo) error {
 	importNames := map[string]string{}
 	rootImports := []string{}
 	fileNames := make([]string, 0, len(pi.AstPkg.Files))
@@ -435,12 +442,12 @@ func setImports(gocmd string, pi *PkgInfo) error {
 			}
 		}
 	}
-	imports, err := getNamedImports(gocmd, importNames)
+	imports, err := getNamedImports(gocmd, dir, importNames)
 	if err != nil {
 		return err
 	}
 	for _, s := range rootImports {
-		imp, err := getImport(gocmd, s, "")
+		imp, err := getImportFrom(dir, gocmd, s, "")
 		if err != nil {
 			return err
 		}
